@@ -66,6 +66,7 @@ def run(ctx):
     ]
     exe, model = build(ctx)
     pr = ctx.proofs("c05", "C05Theorems.v")
+    pr_seg = ctx.proofs("c05", "C05SegTheorems.v")
     # ---- correspondence
     n = ctx.n(3000, 60000)
     exh_c, exh_s = ctx.n(2, 3), ctx.n(3, 4)
@@ -123,6 +124,7 @@ def run(ctx):
                        "mismatches": len(mism), "first_case": by_id.get(first[1], "")[:3000], "model_says": mism[0][:3000]},
                       "model/implementation disagree on %d cases" % len(mism), no_input=True)
     ctx.proof_violation_if_broken(pr, "c05 search: %d evaluations, no failing input" % ctx.notes.get("search_evaluations", 0))
+    ctx.proof_violation_if_broken(pr_seg, "c05 search: %d evaluations, no failing input" % ctx.notes.get("search_evaluations", 0))
     ctx.cov["rule"] = ("corr O: %d random (tfhd, trun flag word, first-sample-flags, 0-6 samples from small pools, trex or none) through "
                        "OptimizeTfhdTrun, the real tfhd/trun codecs (encoded bytes compared byte for byte) and AddSampleDefaultValues; corr D: as many "
                        "encoded trun/tfhd boxes with mutated flags/version/count/length through DecodeBox and DecodeBoxSR vs the model decoders; corr H: one case per fragment of as many random "
